@@ -214,6 +214,14 @@ def ac_parent(k=3):
   return l2.fa(shared, b={"again": shared, "other": l2.Kb(p=(k, "t"))})
 
 
+@auto_config.auto_config
+def ac_chained(k=2):
+  """A partial derived from another partial that is still used on its own."""
+  base = functools.partial(l2.fg, k)
+  special = functools.partial(base, w=k + 1)
+  return l2.fd(base=base, special=special, both=[base, special], leaf=l2.Ka(p=base))
+
+
 @dataclasses.dataclass
 class Inner:
   a: int = 1
@@ -229,7 +237,8 @@ class Outer:
 
 def inline_case(rng, res, label):
   k = rng.randint(1, 9)
-  cfg = fdl.Config(ac_parent, k=k) if rng.random() < 0.7 else fdl.Config(ac_parent)
+  fixture = rng.choice([ac_parent, ac_parent, ac_chained])
+  cfg = fdl.Config(fixture, k=k) if rng.random() < 0.7 else fdl.Config(fixture)
   before = try_build(cfg)
   res.evaluations += 1
   res.count("transform:inline")
@@ -335,6 +344,10 @@ def mutable_default_case(rng, res, label):
     layer.table = v_dict
   if rng.random() < 0.3:
     layer.shared = [0]
+  if rng.random() < 0.35:
+    # the value equal to the default is ALSO held by a sibling argument of the same Buildable
+    layer.name = {"also": v_list} if rng.random() < 0.5 else [v_list, v_dict]
+    layer.sizes = v_list
   holder_kwargs = {"layer": layer}
   r = rng.random()
   if r < 0.4:
